@@ -60,6 +60,8 @@ pub struct Oracles {
     pub c03: bool,
     pub c08: bool,
     pub c16: bool,
+    /// C08: compare the last client's views with a twin execution without client 0's visibility calls.
+    pub c08_twin: bool,
 }
 
 #[derive(Clone, Debug, Serialize)]
@@ -111,6 +113,8 @@ pub struct ReplExec {
     pub upd_held: u32,
     outcome: u64,
     dropped_leftover: bool,
+    /// Views of the last client after each of its frames (twin comparison).
+    observed_views: Vec<ClientView>,
 }
 
 const UPD: usize = 0;
@@ -206,8 +210,10 @@ impl ReplCell {
         }
     }
 
-    fn v(&self, oracle_prop: &str, oracle: &str, detail: String) -> Violation {
-        Violation::new(oracle_prop, oracle, detail)
+    /// Every violation raised inside a cell is reported under the cell's own property; the
+    /// oracle identifier says which oracle fired.
+    fn v(&self, _oracle_family: &str, oracle: &str, detail: String) -> Violation {
+        Violation::new(self.property, oracle, detail)
     }
 
     /// Per-frame oracles for client `c` (C02, C03, C08-visibility-query).
@@ -373,6 +379,9 @@ impl ReplCell {
         if self.oracles.c16 {
             crate::props::c16::check_frame(self, x, c, &view)?;
         }
+        if self.oracles.c08_twin && c + 1 == self.clients() {
+            x.observed_views.push(view.clone());
+        }
 
         let mut sh = std::collections::hash_map::DefaultHasher::new();
         (x.sim.server_tick(), x.sim.in_flight_digest()).hash(&mut sh);
@@ -459,6 +468,35 @@ impl ReplCell {
         Ok(())
     }
 
+    /// C08 "without affecting other clients": the last client's views must be identical to its
+    /// views in the twin execution in which client 0's visibility calls never happened.
+    fn twin_check(&self, x: &mut ReplExec) -> Result<(), Violation> {
+        let observe = self.clients() - 1;
+        let skip = |op: &Op| matches!(op, Op::Vis(0, _, _));
+        let twin = Sim::run_twin(&self.cfg, &x.sim.actions, &skip, observe).map_err(|v| self.own(v))?;
+        if twin.len() != x.observed_views.len() {
+            return Err(self.v(
+                "C08",
+                "twin-length",
+                format!("twin execution has {} frames of c{observe}, original {}", twin.len(), x.observed_views.len()),
+            ));
+        }
+        for (i, (a, b)) in x.observed_views.iter().zip(&twin).enumerate() {
+            if a != b {
+                return Err(self.v(
+                    "C08",
+                    "other-client-affected",
+                    format!(
+                        "frame {i} of c{observe}: view {} differs from {} in the twin execution without c0's visibility calls",
+                        a.show(),
+                        b.show()
+                    ),
+                ));
+            }
+        }
+        Ok(())
+    }
+
     fn lockstep_round(&self, x: &mut ReplExec, tick: bool) -> Result<(), Violation> {
         for c in 0..self.clients() {
             for ch in 0..x.sim.client_channels.len() {
@@ -499,106 +537,7 @@ impl ReplCell {
             if !self.oracles.c01 || !x.sim.is_authorized(c) {
                 continue;
             }
-            let expected: BTreeMap<u64, &Comps> = server
-                .iter()
-                .filter(|(e, _)| x.sim.visible_now(c, **e))
-                .map(|(e, comps)| (*e, comps))
-                .collect();
-            for (e, comps) in &expected {
-                let Some(ce) = view.ents.get(e) else {
-                    return Err(self
-                        .v(
-                            "C01",
-                            "missing-entity",
-                            format!(
-                                "after closure client c{c} lacks server entity {} {}; client view: {}",
-                                fmt_bits(*e),
-                                show_comps(comps),
-                                view.show()
-                            ),
-                        )
-                        .feat("kind:missing-entity"));
-                };
-                if !ce.marked {
-                    return Err(self.v(
-                        "C01",
-                        "unmarked-entity",
-                        format!("after closure client c{c} entity for {} has no Replicated marker", fmt_bits(*e)),
-                    ));
-                }
-                let skeys: BTreeSet<u8> = comps.keys().copied().collect();
-                let ckeys: BTreeSet<u8> = ce.comps.keys().copied().collect();
-                if skeys != ckeys {
-                    let diff: Vec<_> = skeys.symmetric_difference(&ckeys).map(|t| ctag_name(*t)).collect();
-                    return Err(self
-                        .v(
-                            "C01",
-                            "component-set-mismatch",
-                            format!(
-                                "after closure entity {}: server has {} client c{c} has {}",
-                                fmt_bits(*e),
-                                show_comps(comps),
-                                show_comps(&ce.comps)
-                            ),
-                        )
-                        .feat(format!("comp:{}", diff.join("+"))));
-                }
-                for (tag, sv) in comps.iter() {
-                    if *tag == TO {
-                        continue;
-                    }
-                    if ce.comps.get(tag) != Some(sv) {
-                        return Err(self
-                            .v(
-                                "C01",
-                                "value-mismatch",
-                                format!(
-                                    "after closure entity {} {}: server {} client c{c} {}",
-                                    fmt_bits(*e),
-                                    ctag_name(*tag),
-                                    sv.show(),
-                                    ce.comps[tag].show()
-                                ),
-                            )
-                            .feat(format!("comp:{}", ctag_name(*tag))));
-                    }
-                }
-            }
-            for e in view.ents.keys() {
-                if !expected.contains_key(e) {
-                    return Err(self
-                        .v(
-                            "C01",
-                            "extra-entity",
-                            format!(
-                                "after closure client c{c} still holds {} which is not a visible replicated server entity; server: {} client: {}",
-                                fmt_bits(*e),
-                                show_snap(&server),
-                                view.show()
-                            ),
-                        )
-                        .feat("kind:extra-entity"));
-                }
-            }
-            if !view.dead_mapped.is_empty() {
-                return Err(self.v(
-                    "C01",
-                    "dead-mapped-entity",
-                    format!("after closure client c{c} maps {:?} to dead entities", view.dead_mapped),
-                ));
-            }
-            if !view.unmapped_replicated.is_empty() {
-                return Err(self
-                    .v(
-                        "C01",
-                        "extra-entity",
-                        format!(
-                            "after closure client c{c} holds {} replicated entities outside the entity map",
-                            view.unmapped_replicated.len()
-                        ),
-                    )
-                    .feat("kind:unmapped"));
-            }
+            x.sim.converged(c, &server, &view, false).map_err(|v| self.own(v))?;
         }
         x.outcome = oh.finish();
         Ok(())
@@ -653,6 +592,7 @@ impl Scenario for ReplCell {
             upd_held: 0,
             outcome: 0,
             dropped_leftover: false,
+            observed_views: Vec::new(),
         };
         // Handshake / settle: two lock-step rounds, then the initial operations, then settle.
         let r = (|| -> Result<(), Violation> {
@@ -844,7 +784,10 @@ impl Scenario for ReplCell {
         for _ in 0..self.closure_rounds {
             self.lockstep_round(x, true)?;
         }
-        let r = self.final_check(x);
+        let mut r = self.final_check(x);
+        if r.is_ok() && self.oracles.c08_twin && self.clients() >= 2 {
+            r = self.twin_check(x);
+        }
         for c in 0..self.clients() {
             let view = x.sim.client_view(c);
             x.sim.note(format!("  final c{c}: {}", view.show()));
